@@ -24,7 +24,7 @@ m = {
     'not_applicable': [],
     'notes': 'All checks are runtime monitors over executions of the real librfn code built from /repo\'s working '
              'tree (LIBRFN_REPO overrides the path for self-tests). Exit 0 = held on what was observed, 1 = VIOLATION, '
-             '2 = inconclusive (never folded into the other two). See DESIGN.md.',
+             '2 = inconclusive (never folded into the other two). known_findings.txt lists the genuine defects: eleven repaired by fix: commits in /repo (fixed: lines, which suppress nothing) and one recorded (known: line, C06, printed as KNOWN-FINDING when its history is observed; DESIGN.md 7.2 F12). See DESIGN.md.',
 }
 for pid in ids:
     if pid in props.PROPS and props.PROPS[pid].get('claimed', True):
